@@ -2,6 +2,7 @@ package c12
 
 import (
 	"fmt"
+	"sort"
 	"strings"
 
 	"github.com/dadrus/heimdall/internal/config"
@@ -12,6 +13,7 @@ import (
 
 const (
 	e2eRealm      = "verif realm 7"
+	e2eRealm2     = "other realm 9"
 	e2eRedirectTo = "https://login.test/signin?m=GET"
 	e2eRedirCode  = 303
 )
@@ -29,6 +31,8 @@ type e2eObs struct {
 	OK              bool   `json:"ok_response"`
 	Location        string `json:"location,omitempty"`
 	WWWAuthenticate string `json:"www_authenticate,omitempty"`
+	// every WWW-Authenticate value of the response, sorted
+	WWWAll []string `json:"www_authenticate_all,omitempty"`
 	ContentType     string `json:"content_type,omitempty"`
 	Body            string `json:"body,omitempty"`
 	RPCErr          string `json:"rpc_error,omitempty"`
@@ -58,6 +62,7 @@ type e2eRule struct {
 var e2eRules = []e2eRule{
 	{"r-def", "/def/:x", []config.MechanismConfig{{"error_handler": "def"}}, []string{"def"}},
 	{"r-www", "/www/:x", []config.MechanismConfig{{"error_handler": "www"}}, []string{"www"}},
+	{"r-www2", "/www2/:x", []config.MechanismConfig{{"error_handler": "www2"}}, []string{"www2"}},
 	{"r-redir", "/redir/:x", []config.MechanismConfig{{"error_handler": "redir"}}, []string{"redir"}},
 	{"r-cond", "/cond/:x", []config.MechanismConfig{
 		{"error_handler": "www", "if": "type(Error) == authentication_error"},
@@ -85,6 +90,7 @@ func startEntryPoints(cfg optsCfg, probes *app.Probes, upstream string) ([]*entr
 				config.Mechanism{ID: "def", Type: "default"},
 				config.Mechanism{ID: "redir", Type: "redirect", Config: config.MechanismConfig{"to": "https://login.test/signin?m={{ .Request.Method }}", "code": e2eRedirCode}},
 				config.Mechanism{ID: "www", Type: "www_authenticate", Config: config.MechanismConfig{"realm": e2eRealm}},
+				config.Mechanism{ID: "www2", Type: "www_authenticate", Config: config.MechanismConfig{"realm": e2eRealm2}},
 			)
 			sc := &c.Serve.Decision
 			if svc == app.SvcProxy {
@@ -139,7 +145,14 @@ func (ep *entryPoint) do(path, plan, reqID string, accept []string) (e2eObs, err
 			h["accept"] = strings.Join(accept, ",")
 		}
 		res := ep.envoy.Check("GET", "http", "svc.test", path, h, "", nil)
-		return e2eObs{Status: res.Status, OK: res.OK, Location: res.Header("Location"), WWWAuthenticate: res.Header("WWW-Authenticate"),
+		var all []string
+		for _, h := range res.Headers {
+			if strings.EqualFold(h[0], "WWW-Authenticate") {
+				all = append(all, h[1])
+			}
+		}
+		sort.Strings(all)
+		return e2eObs{Status: res.Status, OK: res.OK, Location: res.Header("Location"), WWWAuthenticate: res.Header("WWW-Authenticate"), WWWAll: all,
 			ContentType: res.Header("Content-Type"), Body: res.Body, RPCErr: res.RPCErr}, nil
 	}
 	hdrs := []app.Hdr{{Name: app.HdrPlan, Value: plan}, {Name: app.HdrReq, Value: reqID}}
@@ -150,7 +163,9 @@ func (ep *entryPoint) do(path, plan, reqID string, accept []string) (e2eObs, err
 	if err != nil {
 		return e2eObs{}, err
 	}
-	return e2eObs{Status: res.Status, OK: isSuccess(res.Status), Location: res.Header.Get("Location"), WWWAuthenticate: res.Header.Get("WWW-Authenticate"),
+	all := append([]string(nil), res.Header.Values("WWW-Authenticate")...)
+	sort.Strings(all)
+	return e2eObs{Status: res.Status, OK: isSuccess(res.Status), Location: res.Header.Get("Location"), WWWAuthenticate: res.Header.Get("WWW-Authenticate"), WWWAll: all,
 		ContentType: res.Header.Get("Content-Type"), Body: string(res.Body)}, nil
 }
 
@@ -173,6 +188,13 @@ func c12E2E(r *core.Run) {
 	}
 	st := &stats{m: map[string]int{}}
 	seq := 0
+	// the challenge headers of one and the same failure at the three entry points ("identically by the HTTP services
+	// and the Envoy gRPC service"): case -> entry point -> first observation
+	type wwwKey struct {
+		cfg, accept   int
+		rule, outcome string
+	}
+	www := map[wwwKey]map[string]e2eCase{}
 	for ci, cfg := range cfgs {
 		probes := app.NewProbes()
 		eps, err := startEntryPoints(cfg, probes, up.HostPort())
@@ -202,6 +224,13 @@ func c12E2E(r *core.Run) {
 						trace := probes.Take(reqID)
 						c := e2eCase{Level: "e2e", Entry: ep.name, Options: cfg, Rule: rl.id, OnError: rl.text, Plan: "z1=" + outcome, Accept: accept, Trace: trace, Observed: o}
 						judgeE2E(r, &c, outcome, st)
+						if outcome != "ok" && outcome != "panic" && o.RPCErr == "" {
+							k := wwwKey{ci, ai, rl.id, outcome}
+							if www[k] == nil {
+								www[k] = map[string]e2eCase{}
+							}
+							www[k][ep.name] = c
+						}
 						if seq%97 == 1 {
 							r.Sample(c)
 						}
@@ -213,6 +242,26 @@ func c12E2E(r *core.Run) {
 			ep.stop()
 		}
 	}
+	compared := 0
+	for _, byEntry := range www {
+		ref, ok := byEntry[app.SvcDecision]
+		if !ok {
+			continue
+		}
+		for _, name := range []string{app.SvcProxy, app.SvcGRPC} {
+			c, ok := byEntry[name]
+			if !ok {
+				continue
+			}
+			compared++
+			if strings.Join(c.Observed.WWWAll, "\x00") != strings.Join(ref.Observed.WWWAll, "\x00") {
+				c.Expected = fmt.Sprintf("the WWW-Authenticate values of the decision service for the same failure: %q", ref.Observed.WWWAll)
+				r.Violation("entry-points-disagree-on-challenge", fmt.Sprintf("rule %s, plan %s: %s answered with WWW-Authenticate %q, the decision service with %q",
+					c.Rule, c.Plan, name, c.Observed.WWWAll, ref.Observed.WWWAll), c)
+			}
+		}
+	}
+	r.Count("e2e_challenge_comparisons_across_entry_points", compared)
 	st.mu.Lock()
 	for k, v := range st.m {
 		r.Count("e2e_"+k, v)
@@ -292,9 +341,10 @@ func judgeE2E(r *core.Run, c *e2eCase, outcome string, st *stats) {
 		return
 	}
 	switch c.HandlerRan {
-	case "www":
+	case "www", "www2":
 		want := status("authentication")
-		c.Expected = fmt.Sprintf("%d with WWW-Authenticate naming realm %q", want, e2eRealm)
+		e2eRealm := map[string]string{"www": e2eRealm, "www2": e2eRealm2}[c.HandlerRan]
+		c.Expected = fmt.Sprintf("%d with WWW-Authenticate naming realm %q (and no other realm)", want, e2eRealm)
 		st.add("www_cases", 1)
 		switch {
 		case o.Status != want:
@@ -307,6 +357,12 @@ func judgeE2E(r *core.Run, c *e2eCase, outcome string, st *stats) {
 			fail("www-authenticate-realm-mismatch", fmt.Sprintf("WWW-Authenticate %q does not name realm %q", o.WWWAuthenticate, e2eRealm))
 		default:
 			st.add("www_header_present_"+c.Entry, 1)
+			for _, v := range o.WWWAll {
+				if !strings.Contains(v, e2eRealm) {
+					fail("www-authenticate-foreign-realm", fmt.Sprintf("WWW-Authenticate values %q: %q does not name the configured realm %q", o.WWWAll, v, e2eRealm))
+					break
+				}
+			}
 		}
 	case "redir":
 		c.Expected = fmt.Sprintf("%d with Location %s", e2eRedirCode, e2eRedirectTo)
